@@ -9,6 +9,7 @@ Premise C02.V: the view constructors themselves return (address of self, N eleme
 from ..core import PROVED, REFUTED, UNKNOWN
 from ..rules import check_views, payload_calls, is_full_view, vstr, self_len, through_ref
 from ..tys import tstr
+from ..poly import Poly
 
 EXPLANATION = (
     "Static delegation check on the MIR of the five comparison/hash/Debug impls and the four slice-borrow impls "
@@ -139,6 +140,17 @@ def check_delegate(ctx, cfg, key, method, alt, nargs):
         else:
             ok1 = c.args[1][0] == "P" and c.args[1][1] == ("arg", 2) and not c.args[1][2].t
         ok_ret = bool(a.returns) and all(r["val"] == c.ret for r in a.returns)
+        if not ok_ret:
+            # a short cut for N == 0 that returns what the slice method returns for two empty slices (equal / Equal / Some(Equal)) without calling
+            # it: judged per return path of the tree-shaped body - the call's own result, or that constant under N == 0
+            at_ = ctx.analysis_inl(cfg, key, split=True)
+            cs_t = [x for x in at_.calls if x.fn == method]
+            EQ = ("A", ("adt", "core::cmp::Ordering", 1), ())
+            empties = {"core::cmp::PartialEq::eq": [("B", ("const", 1))], "core::cmp::Ord::cmp": [EQ],
+                       "core::cmp::PartialOrd::partial_cmp": [("A", ("adt", "core::option::Option", 1), (EQ,))]}.get(method, [])
+            n_t = self_len(at_)
+            ok_ret = bool(at_.returns) and bool(cs_t) and all(
+                any(r["val"] == x.ret for x in cs_t) or (r["val"] in empties and n_t is not None and at_.prove(r["facts"], "Eq", n_t, Poly.const(0))) for r in at_.returns)
         if ok_self and ok0 and ok1 and ok_ret:
             status = PROVED
         else:
